@@ -263,45 +263,156 @@ theorem ltP_absMs (x y : Inst) (hx : Normal x) (hy : Normal y) (hxy : x.y < 6553
       have e3 : x.d = y.d := by omega
       rw [e1, e2, e3]; omega
 
-/-! ### 6. epoch conversions -/
+/-! ### 6. epoch conversions (tzob.c; signed, negative before 1970)
 
-/-- `__inst_to_epoch` is the number of seconds since 1970-01-01T00:00 (the milliseconds of a
+`__inst_to_epoch` and `__epoch_to_inst` count years from March to February with a leap day every fourth year,
+which is the Gregorian rule from 1900-03-01 to 2100-02-28: the statements hold on the years 1901..2099 of this
+file and, in the `_wide` forms, on that whole stretch. -/
+
+/-- `__inst_to_epoch` is the number of seconds since 1970-01-01T00:00, negative before it (the milliseconds of a
 `Normal` instant are ignored). -/
-theorem toEpoch_spec (i : Inst) (h : NormalSec i ∨ Normal i) (hy1 : 1970 ≤ i.y) (hy2 : i.y ≤ 2099) :
-    (instToEpoch i : Int) = absSec i - epochDays * 86400 := by
-  have : ValidDate i ∧ i.H < 24 ∧ i.M < 60 ∧ i.S < 60 := by
-    rcases h with ⟨a, b, c, d, _⟩ | ⟨a, b, c, d, _⟩ <;> exact ⟨a, b, c, d⟩
-  obtain ⟨a, b, c, d⟩ := this
-  rw [instToEpoch_eq i a hy1 hy2 b c d]
+theorem toEpoch_spec (i : Inst) (h : NormalSec i ∨ Normal i) (hy1 : 1901 ≤ i.y) (hy2 : i.y ≤ 2099) :
+    instToEpoch i = absSec i - epochDays * 86400 := by
+  have : ValidDate i ∧ i.H < 24 := by
+    rcases h with ⟨a, b, _⟩ | ⟨a, b, _⟩ <;> exact ⟨a, b⟩
+  obtain ⟨⟨a1, a2, -, -⟩, b⟩ := this
+  obtain ⟨r1, r2⟩ := myear_of_inRange i.y i.m hy1 hy2
+  rw [instToEpoch_eq i a1 a2 r1 r2, if_pos (by omega)]
   simp only [absSec]; omega
 
-/-- `__epoch_to_inst` yields the normal second-resolution instant `t` seconds after the epoch
-(`4102444800` = 2100-01-01T00:00Z). -/
-theorem frEpoch_spec (t : Nat) (h : t < 4102444800) :
-    NormalSec (epochToInst t) ∧ absSec (epochToInst t) = epochDays * 86400 + t :=
-  ⟨(frEpoch t h).1, (frEpoch t h).2.2.2⟩
+/-- the same from 1900-03-01 to 2100-02-28 -/
+theorem toEpoch_spec_wide (i : Inst) (h : NormalSec i ∨ Normal i)
+    (hy1 : 1901 ≤ i.y ∨ (i.y = 1900 ∧ 3 ≤ i.m)) (hy2 : i.y ≤ 2099 ∨ (i.y = 2100 ∧ i.m ≤ 2)) :
+    instToEpoch i = absSec i - epochDays * 86400 := by
+  have : ValidDate i ∧ i.H < 24 := by
+    rcases h with ⟨a, b, _⟩ | ⟨a, b, _⟩ <;> exact ⟨a, b⟩
+  obtain ⟨⟨a1, a2, -, -⟩, b⟩ := this
+  obtain ⟨r1, r2⟩ := myear_wide i.y i.m hy1 hy2
+  rw [instToEpoch_eq i a1 a2 r1 r2, if_pos (by omega)]
+  simp only [absSec]; omega
 
-theorem frEpoch_year (t : Nat) (h : t < 4102444800) : 1970 ≤ (epochToInst t).y ∧ (epochToInst t).y ≤ 2099 :=
-  ⟨(frEpoch t h).2.1, (frEpoch t h).2.2.1⟩
+/-- the general form: only the month has to be a month; day, minute and second are counted on linearly and an
+hour above 24 counts as 24. -/
+theorem toEpoch_spec_general (i : Inst) (h1 : 1 ≤ i.m) (h2 : i.m ≤ 12)
+    (hy1 : 1901 ≤ i.y ∨ (i.y = 1900 ∧ 3 ≤ i.m)) (hy2 : i.y ≤ 2099 ∨ (i.y = 2100 ∧ i.m ≤ 2)) :
+    instToEpoch i = (days i.y i.m i.d - epochDays) * 86400 +
+      (if i.H ≤ 24 then (i.H : Int) else 24) * 3600 + (i.M : Int) * 60 + i.S := by
+  obtain ⟨r1, r2⟩ := myear_wide i.y i.m hy1 hy2
+  rw [instToEpoch_eq i h1 h2 r1 r2]
+  split <;> omega
 
-theorem toEpoch_lt (i : Inst) (h : NormalSec i) (hy1 : 1970 ≤ i.y) (hy2 : i.y ≤ 2099) :
+/-- hence an ALL-DAY instant (`H = 255`) is converted as hour 24: the midnight that ENDS its day (and the unused
+minute and second fields are counted on). -/
+theorem toEpoch_spec_day (i : Inst) (h : NormalDay i)
+    (hy1 : 1901 ≤ i.y ∨ (i.y = 1900 ∧ 3 ≤ i.m)) (hy2 : i.y ≤ 2099 ∨ (i.y = 2100 ∧ i.m ≤ 2)) :
+    instToEpoch i = (days i.y i.m i.d - epochDays + 1) * 86400 + (i.M : Int) * 60 + i.S := by
+  obtain ⟨⟨a1, a2, -, -⟩, b⟩ := h
+  rw [toEpoch_spec_general i a1 a2 hy1 hy2, if_neg (by rw [b]; decide)]
+  omega
+
+/-- `__epoch_to_inst` yields the normal second-resolution instant `t` seconds after (before, for `t < 0`) the
+epoch (`-2177452800` = 1901-01-01T00:00Z, `4102444800` = 2100-01-01T00:00Z). -/
+theorem frEpoch_spec (t : Int) (h1 : -2177452800 ≤ t) (h2 : t < 4102444800) :
+    NormalSec (epochToInstI t) ∧ absSec (epochToInstI t) = epochDays * 86400 + t :=
+  ⟨(frEpoch t h1 h2).1, (frEpoch t h1 h2).2.2.2⟩
+
+theorem frEpoch_year (t : Int) (h1 : -2177452800 ≤ t) (h2 : t < 4102444800) :
+    1901 ≤ (epochToInstI t).y ∧ (epochToInstI t).y ≤ 2099 :=
+  ⟨(frEpoch t h1 h2).2.1, (frEpoch t h1 h2).2.2.1⟩
+
+/-- the same from 1900-03-01 (`-2203891200`, the origin of the day count of `__epoch_to_inst`) to 2100-02-28
+(`4107542400` = 2100-03-01T00:00Z) -/
+theorem frEpoch_spec_wide (t : Int) (h1 : -2203891200 ≤ t) (h2 : t < 4107542400) :
+    NormalSec (epochToInstI t) ∧ absSec (epochToInstI t) = epochDays * 86400 + t ∧
+    (1901 ≤ (epochToInstI t).y ∨ ((epochToInstI t).y = 1900 ∧ 3 ≤ (epochToInstI t).m)) ∧
+    ((epochToInstI t).y ≤ 2099 ∨ ((epochToInstI t).y = 2100 ∧ (epochToInstI t).m ≤ 2)) := by
+  obtain ⟨n, y1, y2, a⟩ := frEpochI t h1 h2
+  exact ⟨n, a, wide_of_myear _ _ y1 y2⟩
+
+/-- the conversion for times that are not negative (the callers that hold an unsigned time) -/
+theorem frEpoch_spec_nat (t : Nat) (h : t < 4102444800) :
+    NormalSec (epochToInst t) ∧ absSec (epochToInst t) = epochDays * 86400 + t ∧
+    1970 ≤ (epochToInst t).y ∧ (epochToInst t).y ≤ 2099 := by
+  obtain ⟨n, -, y2, a⟩ := frEpoch (t : Int) (by omega) (by omega)
+  refine ⟨n, a, ?_, y2⟩
+  rw [epochToInst_eq_I]
+  obtain ⟨⟨a1, a2, a3, a4⟩, -⟩ := n
+  by_cases c : 1970 ≤ (epochToInstI t).y
+  · exact c
+  · have := days_lt_of_lex _ _ _ 1970 1 1 a1 a2 a4 (by omega) (by omega) (by omega) (Or.inl (by omega))
+    simp only [absSec] at a
+    have e : days 1970 1 1 = epochDays := rfl
+    omega
+
+theorem toEpoch_ge (i : Inst) (h : NormalSec i) (hy1 : 1901 ≤ i.y) (hy2 : i.y ≤ 2099) :
+    -2177452800 ≤ instToEpoch i := by
+  have e := toEpoch_spec i (Or.inl h) hy1 hy2
+  obtain ⟨l, -⟩ := absSec_bounds i h ⟨hy1, hy2⟩
+  rw [days_1901'] at l
+  rw [epochDays_eq] at e
+  omega
+
+theorem toEpoch_lt (i : Inst) (h : NormalSec i) (hy1 : 1901 ≤ i.y) (hy2 : i.y ≤ 2099) :
     instToEpoch i < 4102444800 := by
   have e := toEpoch_spec i (Or.inl h) hy1 hy2
-  obtain ⟨-, u⟩ := absSec_bounds i h ⟨by omega, hy2⟩
+  obtain ⟨-, u⟩ := absSec_bounds i h ⟨hy1, hy2⟩
   rw [days_2100] at u
   rw [epochDays_eq] at e
   omega
 
-theorem epoch_roundtrip (i : Inst) (h : NormalSec i) (hy1 : 1970 ≤ i.y) (hy2 : i.y ≤ 2099) :
-    epochToInst (instToEpoch i) = i := by
+/-- not negative exactly from 1970 on -/
+theorem toEpoch_nonneg_iff (i : Inst) (h : NormalSec i) (hy1 : 1901 ≤ i.y) (hy2 : i.y ≤ 2099) :
+    0 ≤ instToEpoch i ↔ 1970 ≤ i.y := by
   have e := toEpoch_spec i (Or.inl h) hy1 hy2
-  obtain ⟨n, a⟩ := frEpoch_spec (instToEpoch i) (toEpoch_lt i h hy1 hy2)
+  obtain ⟨⟨a1, a2, a3, a4⟩, a5, a6, a7, -⟩ := h
+  have e70 : days 1970 1 1 = epochDays := rfl
+  simp only [absSec] at e
+  constructor
+  · intro h0
+    by_cases c : 1970 ≤ i.y
+    · exact c
+    · have := days_lt_of_lex _ _ _ 1970 1 1 a1 a2 a4 (by omega) (by omega) (by omega) (Or.inl (by omega))
+      omega
+  · intro c
+    have := days_ge_1970 i.y i.m i.d c a1 a2 a3
+    omega
+
+theorem epoch_roundtrip (i : Inst) (h : NormalSec i) (hy1 : 1901 ≤ i.y) (hy2 : i.y ≤ 2099) :
+    epochToInstI (instToEpoch i) = i := by
+  have e := toEpoch_spec i (Or.inl h) hy1 hy2
+  obtain ⟨n, a⟩ := frEpoch_spec (instToEpoch i) (toEpoch_ge i h hy1 hy2) (toEpoch_lt i h hy1 hy2)
   exact absSec_inj _ _ n h (by rw [a, e]; omega)
 
-theorem epoch_roundtrip' (t : Nat) (h : t < 4102444800) : instToEpoch (epochToInst t) = t := by
-  obtain ⟨n, y1, y2, a⟩ := frEpoch t h
+theorem epoch_roundtrip' (t : Int) (h1 : -2177452800 ≤ t) (h2 : t < 4102444800) :
+    instToEpoch (epochToInstI t) = t := by
+  obtain ⟨n, y1, y2, a⟩ := frEpoch t h1 h2
   have e := toEpoch_spec _ (Or.inl n) y1 y2
   omega
+
+/-- the round trips from 1900-03-01 to 2100-02-28 -/
+theorem epoch_roundtrip_wide (i : Inst) (h : NormalSec i)
+    (hy1 : 1901 ≤ i.y ∨ (i.y = 1900 ∧ 3 ≤ i.m)) (hy2 : i.y ≤ 2099 ∨ (i.y = 2100 ∧ i.m ≤ 2)) :
+    epochToInstI (instToEpoch i) = i := by
+  have e := toEpoch_spec_wide i (Or.inl h) hy1 hy2
+  obtain ⟨⟨a1, a2, a3, a4⟩, a5, a6, a7, -⟩ := id h
+  obtain ⟨l, u⟩ := days_wide i.y i.m i.d a1 a2 a3 a4 hy1 hy2
+  rw [days_1900_3] at l
+  rw [days_2100_3] at u
+  have e' := e
+  rw [epochDays_eq] at e'
+  simp only [absSec] at e'
+  obtain ⟨n, a, -⟩ := frEpoch_spec_wide (instToEpoch i) (by omega) (by omega)
+  exact absSec_inj _ _ n h (by rw [a, e]; omega)
+
+theorem epoch_roundtrip_wide' (t : Int) (h1 : -2203891200 ≤ t) (h2 : t < 4107542400) :
+    instToEpoch (epochToInstI t) = t := by
+  obtain ⟨n, a, y1, y2⟩ := frEpoch_spec_wide t h1 h2
+  have e := toEpoch_spec_wide _ (Or.inl n) y1 y2
+  omega
+
+/-- for a time that is not negative -/
+theorem epoch_roundtrip_nat (t : Nat) (h : t < 4102444800) : instToEpoch (epochToInst t) = t :=
+  epoch_roundtrip' t (by omega) (by omega)
 
 /-! ### 7. the daemon's timestamp (`instant_to_tstamp`, signed, every year)
 
